@@ -44,9 +44,9 @@ pub fn ctypes(chars: &[char]) -> Vec<u8> {
 /// formats, line breaks, grapheme-cluster material and keys of the normaliser table.
 pub const POOL_DIGIT: &[char] = &['0', '7', '9', '０', '５'];
 pub const POOL_ROMAN: &[char] = &['a', 'b', 'Z', 'ａ', 'Ｚ', 'x'];
-pub const POOL_HIRAGANA: &[char] = &['あ', 'い', 'の', 'は', 'ぁ', 'が'];
+pub const POOL_HIRAGANA: &[char] = &['あ', 'い', 'の', 'は', 'ぁ', 'が', 'ぜ', 'ぼ'];
 pub const POOL_KATAKANA: &[char] = &['ア', 'イ', 'ー', 'ｱ', 'ﾟ', 'ヴ'];
-pub const POOL_KANJI: &[char] = &['人', '地', '球', '火', '𠮷', '𪜈', '㐀', '豈'];
+pub const POOL_KANJI: &[char] = &['人', '地', '球', '火', '𠮷', '𪜈', '㐀', '豈', '一', '中', '上'];
 pub const POOL_OTHER: &[char] = &[
     ' ', '/', '\\', '-', '|', '。', 'é', 'π', '€', '\r', '\n', '\u{200d}', '👨', '👩', '🇯', '🇵',
     '\u{3099}', '\u{0301}', '.', ',', '(', '｢', '～', '\t', '\u{7f}', '\u{10ffff}', '"', '\'', '\u{b}', '\u{c}', '\u{85}', '\u{2028}', '\u{2029}', '\u{3000}',
@@ -157,7 +157,7 @@ pub fn to_string(chars: &[char]) -> String {
 
 /// Hostile string for parsers: any Unicode incl. NUL, escapes and delimiters with high density.
 pub fn hostile_string(rng: &mut Rng, max_len: usize) -> String {
-    const DENSE: &[char] = &[' ', '/', '\\', '-', '|', '\0', 'a', 'あ', '𠮷', '\n', 'é', 'ア', '1', '\u{feff}', '\u{3000}'];
+    const DENSE: &[char] = &[' ', '/', '\\', '-', '|', '\0', 'a', 'あ', '𠮷', '\n', 'é', 'ア', '1', '\u{feff}', '\u{3000}', '一', '中', 'Ｏ', 'ぜ', 'ぼ', '＠'];
     let n = rng.below(max_len + 1);
     let mut s = String::new();
     for _ in 0..n {
